@@ -12,14 +12,23 @@ SPEC = {
              "per-instance call i), shot panic at shot j (panic value: error, string, int, struct, []byte or a runtime error), each with a "
              "generated delay before the faulty return; provider / aggregator errors come bare, wrapped with %w, wrapped with pkg/errors, "
              "or as the component's own deadline error (cause context.DeadlineExceeded while the run's contexts are only ever cancelled); caller cancel before "
-             "Run or 0-10 ms into it; profiles once/const/60 s-long, bounded/unbounded ammo, 1-4 instances; every case runs 3 times. "
+             "Run or 0-10 ms into it; profiles once/const/60 s-long, bounded/unbounded ammo, 1-4 instances; pool ids as a config author "
+             "writes them: none (default names pool_<i>), free-form names, and with several pools two cases in three (of those not using "
+             "the harness's own unique names) have a pool whose id is copied from another one (the same free-form name twice, or an "
+             "explicit id equal to the default name of an unnamed pool); about one case in six has a plain, non-failing delay in a step "
+             "of one pool that looks at no context (gun factory call i, WarmUp, schedule factory call i): 0.2-100 ms, or 1.5-2 s "
+             "(one case in twenty) mostly together with a cancel 0-100 ms into the run (run once); every other case runs 3 times. A nil result is accepted only if "
+             "every pool used up its ammo or its schedule, cancel or not; the cancellation error must come within 1 s of the cancel. "
              "Non-trivial = a fault was actually reached or the cancel arrived while Run was in progress; distinct = hash of the case."),
     "floors": {"TestOutcome/fault_provider": 0.05, "TestOutcome/fault_aggregator": 0.05, "TestOutcome/fault_sched": 0.02,
                "TestOutcome/fault_factory": 0.02, "TestOutcome/fault_bind": 0.02, "TestOutcome/fault_warmup": 0.02,
                "TestOutcome/fault_shot_panic": 0.01, "TestOutcome/cancel_in_progress": 0.1, "TestOutcome/pools_gt_1": 0.2,
                "TestOutcome/provider_fault_at_end": 0.02, "TestOutcome/aggregator_fault_at_end": 0.02,
                "TestOutcome/own_deadline_error_at_end": 0.015, "TestOutcome/err_shape_pkg_wrapped": 0.02,
-               "TestOutcome/panic_kind_int": 2, "TestOutcome/panic_kind_struct": 2, "TestOutcome/panic_kind_runtime": 2},
+               "TestOutcome/panic_kind_int": 2, "TestOutcome/panic_kind_struct": 2, "TestOutcome/panic_kind_runtime": 2,
+               "TestOutcome/pool_ids_equal": 0.07, "TestOutcome/pool_id_equals_default_name_of_other": 0.04,
+               "TestOutcome/pool_ids_equal_and_fault_reached": 0.03, "TestOutcome/cancel_inside_blind_step": 0.02,
+               "TestOutcome/cancel_inside_long_blind_step": 8, "TestOutcome/cancel_inside_long_blind_startup_step_other_pools_done": 5},
     "manifest": {
         "technique": "fault-injection property testing (rapid) of the real engine with recording doubles; outcome oracle from which faults were actually reached",
         "text": ("Generated fault/cancel plans are run against the real engine; the doubles record which injected fault actually returned "
@@ -28,7 +37,10 @@ SPEC = {
                  "InstanceFinish, bound closable guns are closed exactly once and no engine goroutine survives. Orderings of the engine's "
                  "result channels are those the Go scheduler produced over 3 runs per case (plus -race in thorough)."),
         "note": ("Hang verdicts use a 20 s deadline (normal runs take < 50 ms). Guns whose Bind failed and the warm-up probe gun are not "
-                 "required to be closed. A nil result after an in-progress cancel is accepted only if the history shows all work was done."),
+                 "required to be closed. A nil result - after an in-progress cancel or not - is accepted only if the history shows all work of every pool was "
+                 "done. Promptness of the cancellation error is a 1 s bound (normal: well under a millisecond; the cli gives up on a "
+                 "SIGTERM'ed run after 3 s), tested against pools that sit in a context-blind step for 1.5-2 s; Engine.Wait is still "
+                 "required to return (it does once the step ends)."),
     },
     "assumptions": ["a fault counts as reached when the double's faulty call actually returned the error"],
 }
